@@ -43,6 +43,7 @@ impl Visit for V<'_> {
 
 struct Rec {
     mode: &'static str,
+    thr: u64, // mode "thr": exactly the levels of rank <= thr are accepted (error = 1 .. trace = 5), and the hint says so
     next: Mutex<u64>,
     stack: Mutex<Vec<u64>>,
     refs: Mutex<std::collections::HashMap<u64, usize>>,
@@ -62,17 +63,26 @@ impl Collect for Rec {
             return Interest::always();
         }
         match self.mode {
+            "thr" => {
+                if vh_common::rec::rank(m.level()) <= self.thr {
+                    Interest::always()
+                } else {
+                    Interest::never()
+                }
+            }
             "never" => Interest::never(),
             "dynamic" => Interest::sometimes(),
             _ => Interest::always(),
         }
     }
     fn enabled(&self, m: &Metadata<'_>) -> bool {
-        !Rec::ours(m) || self.mode == "accept" || self.mode == "cap"
+        !Rec::ours(m) || self.mode == "accept" || self.mode == "cap" || (self.mode == "thr" && vh_common::rec::rank(m.level()) <= self.thr)
     }
     fn max_level_hint(&self) -> Option<LevelFilter> {
         if self.mode == "cap" {
             Some(LevelFilter::OFF)
+        } else if self.mode == "thr" {
+            Some(vh_common::rec::filter_of_rank(self.thr))
         } else {
             None
         }
@@ -219,8 +229,10 @@ fn main() {
             "never" => "never",
             "dynamic" => "dynamic",
             "cap" => "cap",
+            "thr" => "thr",
             _ => "none",
         };
+        let thr = c["thr"].as_u64().unwrap_or(0);
         let calls = c["calls"].as_array().unwrap();
         let schedule: Vec<u64> = c["schedule"].as_array().unwrap().iter().map(|x| x.as_u64().unwrap()).collect();
         let outer = c["outer"].as_bool().unwrap();
@@ -229,12 +241,12 @@ fn main() {
             if mode == "none" {
                 run_calls(&cs, &schedule, outer, false)
             } else {
-                let d = Dispatch::new(Rec { mode, next: Mutex::new(0), stack: Mutex::new(vec![]), refs: Mutex::new(Default::default()), metas: Mutex::new(Default::default()) });
+                let d = Dispatch::new(Rec { mode, thr, next: Mutex::new(0), stack: Mutex::new(vec![]), refs: Mutex::new(Default::default()), metas: Mutex::new(Default::default()) });
                 dispatch::with_default(&d, || run_calls(&cs, &schedule, outer, true))
             }
         };
         let plain = go(false);
         let inst = go(true);
-        out.emit(json!({"ev": "case", "ci": ci, "mode": mode, "outer": outer, "calls": c["calls"], "plain": plain, "inst": inst}));
+        out.emit(json!({"ev": "case", "ci": ci, "mode": mode, "thr": thr, "outer": outer, "calls": c["calls"], "plain": plain, "inst": inst}));
     }
 }
